@@ -155,8 +155,9 @@ def fakes(S, on_event=None):
             ev("wait", me, self, timeout)
             self.lock.owner = None
             notified = S.block_until(lambda: tok["n"], None if timeout is None else S.now + max(timeout, 0))
-            if not notified and tok in self.waiters:
-                self.waiters.remove(tok)
+            if not notified:
+                # remove *this* waiter (tokens are equal as dicts: compare by identity, or a time-out would drop another waiter)
+                self.waiters[:] = [t for t in self.waiters if t is not tok]
             if self.lock.owner is not None:
                 S.block_until(lambda: self.lock.owner is None)
             self.lock.owner = me
